@@ -13,7 +13,10 @@ FIX_COMMITS = ["d6ae502 (passive start-up cancellation: port/listener leak)",
                "4e53b5c (Client.upload ignored leading destination components for directories)",
                "9d69568 (Client.list KeyError on an MLSD entry without a type fact)",
                "0058bea (REST offset survived a refused transfer command)",
-               "b2387d7 (undecodable PASS line leaked a password byte to the logs)"]
+               "b2387d7 (undecodable PASS line leaked a password byte to the logs)",
+               "8aa468d (pending RNFR survived a re-login)", "958879d (pipelined PASV/EPSV lost a data port)",
+               "369b607 (MemoryPathIO.rename of a missing source onto itself)",
+               "2022c75 (concurrent RETRs of one file on MemoryPathIO)"]
 
 ENV_NOTE = ("Trusted base: the environment model (vf/simloop.py: selector, TCP, clock, executor) and the harness-side "
             "oracles; the code explored is the unmodified aioftp imported from /repo/src. Bounds are stated in the "
